@@ -105,3 +105,13 @@ package aggregator
 //@   ensures[C12.gonr.own] round != nil ==> round.detID == detID
 //@ loop #1
 //@   invariant true
+
+// C12 (more than the configured fraction of the power must agree on the SAME value): a validator's power is added to
+// the power behind a listed value only when that value compares EQUAL to the reported one.
+//@ func (*roundPrices).updatePriceAndPower
+//@   requires r != nil && pw != nil
+//@   flag noframe
+//@   flag pure=ExceedsThreshold
+//@   before[C12.upp.same] math/big.Int).Add requires defined(res_Cmp_0) && res_Cmp_0 == 0
+//@ loop #1
+//@   invariant true
